@@ -8,7 +8,8 @@ from core import Case, enc_call, guard, s2c
 
 ID = "C01"
 PROOF_FILE = "Properties/C01.v"
-THEOREMS = ["C01_normal", "C01_fast", "C01_roundtrip_normal_any_fuel", "C01_roundtrip_fast_any_fuel"]
+THEOREMS = ["C01_normal", "C01_fast", "C01_roundtrip_normal_any_fuel", "C01_roundtrip_fast_any_fuel",
+            "C01_on_generated_graphs"]
 CONE = ["Proofs/ComposeProofs.v", "Proofs/CoderProofs.v", "Proofs/TerminationProofs.v", "Proofs/WalkProofs.v",
         "Proofs/ShuffleProofs.v", "Proofs/VTProofs.v", "Proofs/ConvertProofs.v", "Proofs/BignumProofs.v", "Coder.v",
         "Convert.v", "Bignum.v", "CoderSpec.v", "FastSpec.v", "GraphSpec.v", "Spec.v", "Py.v"]
